@@ -3,6 +3,7 @@
 package conf
 
 import (
+	"github.com/bluenviron/mediamtx/internal/conf/jsonwrapper"
 	"path/filepath"
 	"os"
 	"fmt"
@@ -214,6 +215,41 @@ func TestVerifC14(t *testing.T) {
 						break
 					}
 				}
+			}
+		}
+	}
+	// precedence: what one path sets overrides the path defaults for THAT path only. Adding a path that sets a parameter
+	// changes neither the path defaults nor what another path inherits (every path parameter, incl. the pointer-typed
+	// deprecated ones)
+	{
+		base := verifBaseConf(t)
+		for _, f := range verifPathFields {
+			for try := 0; try < 8; try++ {
+				v1, v2 := verifGenJSON(rng, f.Type, f.GoName), verifGenJSON(rng, f.Type, f.GoName)
+				if v1 == v2 || v1 == "null" || v2 == "null" {
+					continue
+				}
+				c1 := vmon.DeepCopy(base)
+				var d, o, empty OptionalPath
+				if jsonwrapper.Unmarshal([]byte("{"+verifJSONString(f.JSON)+":"+v1+"}"), &d) != nil || jsonwrapper.Unmarshal([]byte("{"+verifJSONString(f.JSON)+":"+v2+"}"), &o) != nil || jsonwrapper.Unmarshal([]byte("{}"), &empty) != nil {
+					continue
+				}
+				c1.PatchPathDefaults(&d)
+				if c1.AddPath("cam2", &empty) != nil || c1.Validate(nil) != nil {
+					continue
+				}
+				c2 := vmon.DeepCopy(c1)
+				if c2.AddPath("cam1", &o) != nil || c2.Validate(nil) != nil {
+					continue
+				}
+				r.Eval("override|" + f.JSON)
+				r.SetAdd("path_parameters_overridden_by_one_path", f.JSON)
+				if dd := vmon.DiffDumps(vmon.Dump(c1.PathDefaults), vmon.Dump(c2.PathDefaults), 4); len(dd) != 0 {
+					r.Violation("path-override-changes-the-defaults", fmt.Sprintf("pathDefaults.%s = %s; adding a path cam1 with %s = %s changed the path defaults: %v", f.JSON, v1, f.JSON, v2, dd), nil)
+				} else if dd := vmon.DiffDumps(vmon.Dump(c1.Paths["cam2"]), vmon.Dump(c2.Paths["cam2"]), 4); len(dd) != 0 {
+					r.Violation("path-override-leaks-into-another-path", fmt.Sprintf("pathDefaults.%s = %s; adding a path cam1 with %s = %s changed what path cam2 (which sets nothing) resolves to: %v", f.JSON, v1, f.JSON, v2, dd), nil)
+				}
+				break
 			}
 		}
 	}
